@@ -372,7 +372,9 @@ class Canon:
         elif h.cls is not None or h.module is not f.module:
             return None
         a = h.node.args
-        if a.vararg or a.kwarg or h.node.decorator_list and h.kind != "static":
+        if a.kwarg or h.node.decorator_list and h.kind != "static":
+            return None
+        if a.vararg and any(isinstance(x, ast.Starred) for x in call.args):
             return None
         if any(isinstance(x, (ast.Yield, ast.YieldFrom, ast.Await, ast.Global, ast.Nonlocal)) for x in ast.walk(h.node)):
             return None
@@ -452,11 +454,15 @@ class Canon:
             orig = orig[1:]
         kwonly = [x.arg for x in a.kwonlyargs]
         korig = [x.arg for x in h.node.args.kwonlyargs]
-        if any(isinstance(x, ast.Starred) for x in call.args) or len(call.args) > len(params):
+        var = a.vararg.arg if a.vararg else None
+        if any(isinstance(x, ast.Starred) for x in call.args) or (len(call.args) > len(params) and var is None):
             return None
         val = {}
         for p_, v in zip(params, call.args):
             val[p_] = v
+        if var is not None:
+            # `*rest` receives the remaining positional arguments as a tuple
+            val[var] = ast.Tuple(elts=list(call.args[len(params):]), ctx=ast.Load())
         kws = _expand_kwargs(call.keywords)
         if kws is None:
             return None
@@ -471,7 +477,7 @@ class Canon:
                 if o not in dm:
                     return None
                 val[p_] = copy.deepcopy(dm[o])
-        return [ast.copy_location(ast.Assign(targets=[ast.Name(id=p_, ctx=ast.Store())], value=val[p_], lineno=call.lineno), call) for p_ in params + kwonly]
+        return [ast.copy_location(ast.Assign(targets=[ast.Name(id=p_, ctx=ast.Store())], value=val[p_], lineno=call.lineno), call) for p_ in params + ([var] if var else []) + kwonly]
 
     def _inline_block(self, f, body, depth=0):
         if depth > 3:
@@ -689,7 +695,9 @@ class Canon:
         node = copy.deepcopy(f.node)
         node.decorator_list = []
         self._k = {}
-        body = _strip_doc(node.body)
+        node.body = _strip_doc(node.body)
+        node = _Small().visit(node)   # (tuple assignments from a literal table, f(*(a, b)), ... are plain statements before helpers are looked at)
+        body = node.body
         if inline:
             body = self._inline_block(f, body)
         body = _Blocks().block(body, "func")
@@ -1295,6 +1303,17 @@ def _hoist(body):
 class _Small(ast.NodeTransformer):
     """`a, b = (x, y)` -> two assignments; `if c: t = A else: t = B` -> `t = A if c else B`; `(A.f if c else B.f)` -> `(A if c else B).f`"""
 
+    _root = None
+
+    def visit(self, node):
+        if _Small._root is None:
+            _Small._root = node
+            try:
+                return super().visit(node)
+            finally:
+                _Small._root = None
+        return super().visit(node)
+
     def generic_visit(self, node):
         node = super().generic_visit(node)
         for fld in ("body", "orelse", "finalbody"):
@@ -1333,6 +1352,57 @@ class _Small(ast.NodeTransformer):
                     and not ({txt(t) for t in st.targets[0].elts} & {txt(x) for v in st.value.elts for x in ast.walk(v) if isinstance(x, (ast.Name, ast.Attribute))}):
                 for t, v in zip(st.targets[0].elts, st.value.elts):
                     out.append(ast.copy_location(ast.Assign(targets=[t], value=v, lineno=st.lineno), st))
+                continue
+            if isinstance(st, ast.Assign) and len(st.targets) == 1 and isinstance(st.targets[0], ast.Tuple) and all(isinstance(t, ast.Name) for t in st.targets[0].elts):
+                tg, v = st.targets[0].elts, st.value
+                # `a, b = (E(v) for v in (r1, r2))`  ->  `a = E(r1); b = E(r2)`     (a literal table with one row per target)
+                if isinstance(v, (ast.GeneratorExp, ast.ListComp)) and len(v.generators) == 1 and not v.generators[0].ifs and isinstance(v.generators[0].iter, (ast.Tuple, ast.List)) \
+                        and len(v.generators[0].iter.elts) == len(tg) and isinstance(v.generators[0].target, ast.Name) \
+                        and not any(isinstance(x, ast.Name) and x.id in {t.id for t in tg} for x in ast.walk(v)):
+                    g = v.generators[0]
+                    for t, row in zip(tg, g.iter.elts):
+                        c_ = _SubstAll({g.target.id: row})
+                        c_._top = st
+                        out.append(ast.copy_location(ast.Assign(targets=[t], value=_Small().visit(c_.visit(copy.deepcopy(v.elt))), lineno=st.lineno), st))
+                    continue
+                # `a, b = (A1, B1) if c else (A2, B2)`  ->  `a = A1 if c else A2; b = B1 if c else B2`   (c pure and not about a or b)
+                if isinstance(v, ast.IfExp) and isinstance(v.body, ast.Tuple) and isinstance(v.orelse, ast.Tuple) and len(v.body.elts) == len(v.orelse.elts) == len(tg) \
+                        and _is_pure(v.test, reads_ok=True) and not any(isinstance(x, ast.Name) and x.id in {t.id for t in tg} for x in ast.walk(v)):
+                    for t, a_, b_ in zip(tg, v.body.elts, v.orelse.elts):
+                        out.append(ast.copy_location(ast.Assign(targets=[t], value=ast.IfExp(test=copy.deepcopy(v.test), body=a_, orelse=b_), lineno=st.lineno), st))
+                    continue
+            if isinstance(st, ast.Expr) and isinstance(st.value, ast.Call):
+                # `f(A if c else B, x + (p if c else q))`  ->  `if c: f(A, x + p) else: f(B, x + q)`   (several arguments chosen together by one pure test: two variants of the call)
+                inner = {id(y) for x in _walk_no_defs(st.value) if isinstance(x, (ast.ListComp, ast.SetComp, ast.DictComp, ast.GeneratorExp)) for y in ast.walk(x)}
+                ifs = [x for x in _walk_no_defs(st.value) if isinstance(x, ast.IfExp) and id(x) not in inner]
+                by_test = {}
+                for x in ifs:
+                    by_test.setdefault(txt(x.test), []).append(x)
+                key = next((k_ for k_, v_ in by_test.items() if len(v_) >= 2 and _is_pure(v_[0].test, reads_ok=True)), None)
+                if key is not None:
+                    class _Pick(ast.NodeTransformer):
+                        def __init__(self, take):
+                            self.take = take
+
+                        def visit_IfExp(self, n_):
+                            if txt(n_.test) == key:
+                                return self.visit(n_.body if self.take else n_.orelse)
+                            return self.generic_visit(n_)
+
+                        def visit_Lambda(self, n_):
+                            return n_
+
+                        visit_ListComp = visit_SetComp = visit_DictComp = visit_GeneratorExp = visit_Lambda
+
+                    yes = ast.copy_location(ast.Expr(value=_Pick(True).visit(copy.deepcopy(st.value))), st)
+                    no = ast.copy_location(ast.Expr(value=_Pick(False).visit(copy.deepcopy(st.value))), st)
+                    out.append(ast.copy_location(ast.If(test=by_test[key][0].test, body=_Small._block([yes]), orelse=_Small._block([no])), st))
+                    continue
+            if isinstance(st, ast.Expr) and isinstance(st.value, ast.Call) and isinstance(st.value.func, ast.Name) and st.value.func.id == "setattr" and len(st.value.args) == 3 \
+                    and not st.value.keywords and isinstance(st.value.args[1], ast.Constant) and isinstance(st.value.args[1].value, str) and st.value.args[1].value.isidentifier():
+                # setattr(obj, 'name', v)  ->  obj.name = v
+                a_ = st.value.args
+                out.append(ast.copy_location(ast.Assign(targets=[ast.Attribute(value=a_[0], attr=a_[1].value, ctx=ast.Store())], value=a_[2], lineno=st.lineno), st))
                 continue
             if isinstance(st, ast.Assign) and len(st.targets) == 1 and isinstance(st.targets[0], ast.Name) and isinstance(st.value, ast.IfExp):
                 t, v = st.targets[0].id, st.value
@@ -1396,11 +1466,17 @@ class _Small(ast.NodeTransformer):
         used = {v.id for r in rows for v in r if isinstance(v, ast.Name)}
         if (stored & (set(names) | used)) or any(isinstance(x, (ast.Break, ast.Continue, ast.FunctionDef, ast.Lambda)) for b in n.body for x in ast.walk(b)):
             return None
+        # locals that live only inside the loop body belong to one copy of it
+        loop_local = set()
+        if _Small._root is not None:
+            def count(tree, name):
+                return sum(1 for x in ast.walk(tree) if isinstance(x, ast.Name) and x.id == name)
+            loop_local = {x for x in stored if count(_Small._root, x) == count(n, x)}
         out = []
         for k, r in enumerate(rows):
             env = dict(zip(names, r))
             # (locals of written-out helpers belong to one copy of the body)
-            ren = {x: "%s_u%d" % (x, k + 1) for x in stored if "__" in x} if k else {}
+            ren = {x: "%s_u%d" % (x, k + 1) for x in stored if "__" in x or x in loop_local} if k else {}
             for b in n.body:
                 c = _SubstAll(env)
                 c._top = n
@@ -1482,9 +1558,20 @@ class _FoldConst(ast.NodeTransformer):
             return n.body if n.test.value else n.orelse
         return n
 
+    def visit_Call(self, n):
+        self.generic_visit(n)
+        # getattr(obj, 'name')  ->  obj.name
+        if isinstance(n.func, ast.Name) and n.func.id == "getattr" and len(n.args) == 2 and not n.keywords and isinstance(n.args[1], ast.Constant) and isinstance(n.args[1].value, str) \
+                and n.args[1].value.isidentifier():
+            return ast.copy_location(ast.Attribute(value=n.args[0], attr=n.args[1].value, ctx=ast.Load()), n)
+        return n
+
     def visit_BinOp(self, n):
         # '%s%s' % ('name', i)  ->  'name%s' % i     (only plain %s fields; literal text arguments are written into the format)
         self.generic_visit(n)
+        # (a,) + (b, c)  ->  (a, b, c)
+        if isinstance(n.op, ast.Add) and isinstance(n.left, ast.Tuple) and isinstance(n.right, ast.Tuple) and not any(isinstance(e, ast.Starred) for e in n.left.elts + n.right.elts):
+            return ast.copy_location(ast.Tuple(elts=n.left.elts + n.right.elts, ctx=ast.Load()), n)
         if isinstance(n.op, ast.Mod) and isinstance(n.left, ast.Constant) and isinstance(n.left.value, str) and isinstance(n.right, ast.Tuple) \
                 and any(isinstance(e, ast.Constant) and isinstance(e.value, str) for e in n.right.elts):
             import re as _re
